@@ -128,7 +128,9 @@ def _terrain(rng, H, W):
 def _run_case(rec, Z, vr, vc, obs, tgt, cx, cy, ydesc, kind, sample=False):
     from xrspatial import viewshed
     H, W = Z.shape
-    ys = np.arange(H) * cy; xs = np.arange(W) * cx + 3.0
+    # coordinates that are not float-exact multiples of the cell size (0.3, 0.1, arc-seconds, geographic offsets)
+    x0 = [3.0, 5.0, -122.5, 500015.0][(vr + 2 * vc + H) % 4]; y0 = [0.0, 37.25, -3.3][(vr + vc + W) % 3]
+    ys = y0 + np.arange(H) * cy; xs = x0 + np.arange(W) * cx
     if ydesc:
         ys = ys[::-1].copy()
     r = xr.DataArray(gen.rand_layout(Z.copy(), np.random.default_rng(vr * 31 + vc)), dims=['y', 'x'], coords={'y': ys, 'x': xs}, attrs={'res': (cx, cy)})
@@ -221,7 +223,7 @@ def check(rec, kind, idx, rng, tier):
         h, w, rep = map(int, idx.split(','))
         tk, Z = _terrain(rng, h, w)
         obs = float(rng.choice([0, 0, 1, 5, -1, 0.3])); tgt = float(rng.choice([0, 0, 1, 2.5]))
-        cx, cy = float(rng.choice([1, 1, 0.5, 2.5])), float(rng.choice([1, 1, 3, 0.25]))
+        cx, cy = float(rng.choice([1, 1, 0.5, 2.5, 0.3, 0.1])), float(rng.choice([1, 1, 3, 0.25, 0.3, 1 / 3600]))
         ydesc = bool(rng.random() < 0.5)
         for vr in range(h):
             for vc in range(w):
@@ -233,7 +235,7 @@ def check(rec, kind, idx, rng, tier):
     if kind == 'mid':
         H, W = int(rng.integers(12, 21)), int(rng.integers(12, 21))
     tk, Z = _terrain(rng, H, W)
-    cx, cy = float(rng.choice([1, 1, 0.5, 2.5, 30])), float(rng.choice([1, 1, 3, 0.25, 30]))
+    cx, cy = float(rng.choice([1, 1, 0.5, 2.5, 30, 0.3, 0.1, 1 / 3600])), float(rng.choice([1, 1, 3, 0.25, 30, 0.3, 0.7, 1 / 3600]))
     where = str(rng.choice(['any', 'any', 'corner', 'edge']))
     if where == 'corner': vr, vc = int(rng.choice([0, H - 1])), int(rng.choice([0, W - 1]))
     elif where == 'edge':
